@@ -2,7 +2,7 @@
 (* result (json) out.  Decoding of the case happens here, in Gallina, so the OCaml  *)
 (* driver only converts text to the [json] datatype and back.                       *)
 From LCM Require Import Base.Prelude Base.Arr Base.ArrOps Base.PyVal Base.Json Base.QKernel.
-From LCM Require Import Gen.GridHelpersQ Gen.NdimageKernel Gen.GridValidate Gen.DiscreteNoShocks.
+From LCM Require Import Gen.GridHelpersQ Gen.NdimageKernel Gen.GridValidate Gen.DiscreteNoShocks Gen.Argmax.
 From LCM Require Import Spec.Interp Spec.GridRules Model.Ndimage Model.Grids.
 Local Open Scope string_scope.
 
@@ -50,6 +50,26 @@ Definition run_kernel (fn : string) (c : json) : option json :=
     do dc <- jfield_of jbool "is_dataclass" c ;; do vs <- jfield_of (jlist_of jpyval) "values" c ;;
     Some (JObj [("model", JBool (validate_discrete_grid dc vs));
                 ("spec", JBool (spec_accepts_discrete dc vs))])
+  else if String.eqb fn "argmax" then
+    do a <- jfield_of (jarr jval) "a" c ;;
+    let axis := match jfield "axis" c with Some j => jlist_of jnat j | None => None end in
+    let initial := match jfield "initial" c with Some j => jval j | None => None end in
+    let where_ := match jfield "where" c with Some j => jarr jbool j | None => None end in
+    let r := argmax a axis initial where_ in
+    Some (JObj [("argmax", of_arr of_nat (fst r)); ("max", of_arr of_val (snd r))])
+  else if String.eqb fn "segment_argmax" then
+    do a <- jfield_of (jarr jval) "data" c ;;
+    do ids <- jfield_of (jlist_of jnat) "segment_ids" c ;;
+    do n <- jfield_of jnat "num_segments" c ;;
+    let r := segment_argmax a ids n in
+    Some (JObj [("argmax", of_arr of_nat (fst r)); ("max", of_arr of_val (snd r))])
+  else if String.eqb fn "discrete_no_shocks" then
+    do a <- jfield_of (jarr jval) "values" c ;;
+    let axes := match jfield "axes" c with Some JNull => None | Some j => jlist_of jnat j | None => None end in
+    let seg := match jfield "segment_ids" c, jfield_of jnat "num_segments" c with
+               | Some j, Some n => match jlist_of jnat j with Some ids => Some (mkSeg ids n) | None => None end
+               | _, _ => None end in
+    Some (of_arr of_val (solve_discrete_problem_no_shocks a axes seg tt))
   else if String.eqb fn "lin_points" then
     do a <- jfield_of jq "start" c ;; do b <- jfield_of jq "stop" c ;; do n <- jfield_of jnat "n" c ;;
     Some (of_list of_q (lin_points a b n))
